@@ -173,9 +173,7 @@ class DiameterAssociation(object):
                 break
 
             data_stream = self._recv_pending_stream + \
-                                copy.copy(self.transport._recv_data_stream)
-            self.transport._recv_data_stream = b""
-            self.transport._recv_data_available.clear()
+                                        self.transport.take_recv_data_stream()
 
             diameter_conn_logger.debug("Grabbing data stream from "\
                                        "Transport Layer to Diameter Layer.")
